@@ -635,6 +635,19 @@ func judgeC12(out *evid.Out, r *dRun) {
 	if r.Livelock != "" {
 		viol("consumer-livelock", "the consumer does not move on to later messages: "+r.Livelock)
 	}
+	// "once a Write has returned the message reaches the wrapped writer or is reported dropped": when everything is
+	// over (Close returned), no stored position of a Write that returned before Close may be left behind
+	if r.CloseHung == "" && r.ProducersHung == "" && !r.cfg.Hookless && !r.cfg.NilAlerter && r.cfg.CloseTwice != 2 && r.StallState == "" {
+		allBefore := true
+		for _, w := range r.W() {
+			if !w.Returned || !(w.Ret < r.closeCalled) {
+				allBefore = false
+			}
+		}
+		if lost := lostPositions(r); allBefore && len(lost) > 0 {
+			viol("never-delivered:"+lossClass(r), fmt.Sprintf("ring position(s) %v were stored by Writes that had returned before Close was called; when Close had returned they were neither delivered nor reported dropped", lost))
+		}
+	}
 	switch r.StallState {
 	case "parked", "polling":
 		_, ret, del, al := r.counts()
